@@ -658,8 +658,7 @@ Definition ref_programs : list (string * hprog) := [
        HReturn true]);
   ("pwd", P [
        HLet "x0" (EDblQuote (EStr (EAttr "current_directory")));
-       HLet "x1" (EQuoted (EVar "x0"));
-       HReply (ELit "257") (EVar "x1");
+       HReply (ELit "257") (EQuoted (EVar "x0"));
        HReturn true]);
   ("quit", P [HReply (ELit "221") EOpaque; HReturn false]);
   ("rest", P [
